@@ -155,6 +155,7 @@ static hc::Outcome run_one(hc::RunSpec& rs) {
     hc::sim_defaults_from_seed(c, r, P);
     g_workmean = (int)c.i("work");
 
+    hc::announce(rs);
     sim::Options o = hc::sim_options(c, P, rs.seed);
     o.replay = rs.replay; o.replay_choices = rs.choices; o.keep_choices = rs.want_choices;
     Recorder rec; g_rec = &rec;
